@@ -222,6 +222,11 @@ func finish(def PropertyDef, rep *Report, c *Ctx, tier string, seed int, wall fl
 	if c != nil {
 		analysed["repo_packages"] = len(c.Pkgs)
 		analysed["repo_functions_with_bodies"] = c.NFuncs
+		if len(c.InlineLog) > 0 {
+			analysed["normalisation"] = c.InlineLog
+		} else {
+			analysed["normalisation"] = "no unexported function beyond the pinned tree's (baseline_funcs.txt): nothing inlined"
+		}
 	}
 	for k, v := range rep.Analysed {
 		analysed[k] = v
